@@ -541,11 +541,12 @@ def zernike_radial_orthogonal_full : Prop :=
     ∫ r in (0:ℝ)..1, (r ^ m * zernikeRadial n m r) * (r ^ m * zernikeRadial n' m r) * r
       = if n = n' then 1 / (2 * ((n:ℝ) + 1)) else 0
 
-/-- Qbfs slopes are orthonormal under Forbes' weight: `∫_0^1 (d/du S_m)(d/du S_n) /√(u²(1−u²))`-type inner product — NOT PROVED
-    (stated with the derivative as Mathlib's `deriv`) -/
+/-- Qbfs: the slopes of `S_n(u) = u²(1−u²)Q_n(u²)` are orthonormal under Forbes' inner product
+    `⟨f,g⟩ = (2/π)∫_0^1 f g (1−u²)^{-1/2} du` — NOT PROVED (derivative as Mathlib's `deriv`) -/
 def qbfs_slope_orthonormal_full : Prop :=
-  ∀ (n m : ℕ), n ≠ m →
-    ∫ u in (0:ℝ)..1, deriv (qbfs Real.sqrt n) u * deriv (qbfs Real.sqrt m) u * Real.sqrt (1 - u ^ 2) / u = 0
+  ∀ (n m : ℕ),
+    (2 / Real.pi) * ∫ u in (0:ℝ)..1, deriv (qbfs Real.sqrt n) u * deriv (qbfs Real.sqrt m) u / Real.sqrt (1 - u ^ 2)
+      = if n = m then 1 else 0
 
 end not_proved
 
